@@ -370,11 +370,19 @@ pub fn disas_operand(variant: &str, v: u64) -> String {
     import re as _re
     dsrc = tables.src("rspirv/binary/autogen_decode_operand.rs").text
     arms = []
-    for m_ in _re.finditer(r"pub fn (\w+)\(&mut self\) -> Result<spirv::(\w+)>", dsrc):
+    for m_ in _re.finditer(r"pub fn (\w+)\(\s*&mut self,?\s*\) -> Result<spirv::(\w+)>", dsrc):
         meth, kind = m_.group(1), m_.group(2)
         bits = "v.bits()" if kind in masks else "v as u32"
         arms.append('        "%s" => match d.%s() { Ok(v) => format!("{{\\"ok\\": true, \\"bits\\": {}, \\"offset\\": {}}}", %s, d.offset()), '
                     'Err(e) => format!("{{\\"ok\\": false, \\"error\\": {}, \\"offset\\": {}}}", crate::ops::jstr(&format!("{:?}", e)), d.offset()) },' % (meth, meth, bits))
     o.append("pub fn typed_request(meth: &str, w: u32, empty: bool) -> String {\n    let full = w.to_le_bytes();\n    let bytes: &[u8] = if empty { &[] } else { &full };\n    let mut d = rspirv::binary::Decoder::new(bytes);\n    match meth {\n"
              + "\n".join(arms) + '\n        _ => "{\\"error\\": \\"unknown method\\"}".to_string(),\n    }\n}\n')
+    # the same request on a decoder whose limit is already used up, followed by a raw word request (which must still be refused)
+    arms2 = []
+    for m_ in _re.finditer(r"pub fn (\w+)\(\s*&mut self,?\s*\) -> Result<spirv::(\w+)>", dsrc):
+        arms2.append('        "%s" => d.%s().is_ok(),' % (m_.group(1), m_.group(1)))
+    o.append("pub fn typed_request_at_limit(meth: &str, w: u32) -> String {\n    let mut bytes = w.to_le_bytes().to_vec();\n    bytes.extend_from_slice(&w.to_le_bytes());\n"
+             "    let mut d = rspirv::binary::Decoder::new(&bytes);\n    d.set_limit(0);\n    let first_ok = match meth {\n" + "\n".join(arms2) +
+             '\n        _ => return "{\\"error\\": \\"unknown method\\"}".to_string(),\n    };\n    let off = d.offset();\n    let next = d.word().is_ok();\n'
+             '    format!("{{\\"first_ok\\": {}, \\"offset_after_first\\": {}, \\"next_word_ok\\": {}, \\"limit_reached\\": {}}}", first_ok, off, next, d.limit_reached())\n}\n')
     return "\n".join(o) + "\n"
